@@ -237,10 +237,30 @@ func (in *Interp) query(extra []*Term, fallback time.Duration) (Result, *Model) 
 			vals[k] = v
 		}
 	}
-	for k, v := range ent.vals {
-		vals[k] = v
+	// only the variables of the slice may be overridden: a cached entry can
+	// carry values of further variables that are constrained elsewhere on this path
+	relNames := map[string]bool{}
+	for id := range rel {
+		if vt := in.tb.varTerm[id]; vt != nil {
+			relNames[vt.name] = true
+		}
 	}
-	return Sat, NewModel(vals)
+	for k, v := range ent.vals {
+		if relNames[k] {
+			vals[k] = v
+		}
+	}
+	m := NewModel(vals)
+	// safety net: a model handed out must satisfy the whole path condition and the query
+	for _, c := range append(append([]*Term(nil), in.pc...), extra...) {
+		if m.Eval(c) == 0 {
+			fmt.Fprintf(os.Stderr, "ENGINE: composed model violates %s (cached=%v base=%v key=%s)\n", c.String(), ok, base != nil, key)
+			delete(in.qcache, key)
+			in.badModels++
+			return Unknown, nil
+		}
+	}
+	return Sat, m
 }
 
 // hardArith reports whether the terms contain wide multiplication/division
